@@ -708,9 +708,12 @@ impl<N, E, S: BuildHasher, Ty: EdgeType, Null: Nullable<Wrapped = E>, Ix: IndexT
     }
 
     fn assert_node_bounds(&self, a: NodeIndex<Ix>, b: NodeIndex<Ix>) -> Result<(), MatrixError> {
-        if a.index() >= self.node_capacity {
+        // Node ids below the id bound exist even when the matrix has not been grown to hold
+        // their rows yet (that only happens when an edge is added).
+        let bound = cmp::max(self.node_capacity, self.nodes.upper_bound);
+        if a.index() >= bound {
             Err(MatrixError::NodeMissed(a.index()))
-        } else if b.index() >= self.node_capacity {
+        } else if b.index() >= bound {
             Err(MatrixError::NodeMissed(b.index()))
         } else {
             Ok(())
